@@ -26,10 +26,11 @@ type c04RealSpec struct {
 	root    bool   // a common dependency finishes first
 	hooks   bool   // the shared context has before/after hooks, the tasks have before hooks
 	skipMid bool   // one more stage, with a false condition, between the root and one of the stages
+	inter   bool   // the tasks are declared interactive
 }
 
 func (s c04RealSpec) line() string {
-	return fmt.Sprintf("barrier k=%d ctx=%s root=%v hooks=%v skipMid=%v", s.k, s.ctx, s.root, s.hooks, s.skipMid)
+	return fmt.Sprintf("barrier k=%d ctx=%s root=%v hooks=%v skipMid=%v interactive=%v", s.k, s.ctx, s.root, s.hooks, s.skipMid, s.inter)
 }
 
 func c04RealCase(col *Collector, s c04RealSpec) {
@@ -65,6 +66,7 @@ func c04RealCase(col *Collector, s c04RealSpec) {
 			dir, name, dir, s.k)
 		t := task.FromCommands(cmd)
 		t.Name = name
+		t.Interactive = s.inter
 		if s.hooks {
 			t.Before = []string{"true"}
 		}
@@ -136,6 +138,7 @@ func runC04Real(col *Collector, tier string, seed int64) {
 			specs = append(specs, c04RealSpec{k: k, ctx: ctx, root: rng.Intn(2) == 0, hooks: rng.Intn(2) == 0, skipMid: rng.Intn(3) == 0})
 		}
 	}
+	specs = append(specs, c04RealSpec{k: 3, ctx: "none", inter: true}, c04RealSpec{k: 2, ctx: "shared", inter: true, hooks: true})
 	// wider than the number of CPUs: nothing may tie the number of simultaneous commands to it
 	specs = append(specs, c04RealSpec{k: wide, ctx: "none", root: true}, c04RealSpec{k: wide, ctx: "shared", hooks: true})
 	if tier == "thorough" {
